@@ -6,7 +6,7 @@ ids = [p['id'] for p in props]
 
 # id -> (level, engine, technique, level text, level note, design ref)
 CHECKS = {
- "C01": ("model_checking", "E-STATE", "explicit-state depth-bounded search (iterative deepening) over real Replica/InMemoryStorage objects against a harness chain server; chain-replay reference model on every state; plus every interleaving of two replicas syncing at once (controlled scheduler)",
+ "C01": ("model_checking", "E-STATE", "explicit-state depth-bounded search (iterative deepening) over real Replica/InMemoryStorage objects against a harness chain server; chain-replay reference model on every state; plus every interleaving of two replicas syncing at once (controlled scheduler) and one scenario with pending lists of 1500 and 1200 small operations",
          "Every history of create/update/delete/1MB-update/sync actions up to the depth bound, for 2, 3 and 4 replicas, is executed on the real code; on every reachable state the replica invariant, quiescence convergence and equality with the replay of the server chain are evaluated. Spaces also cover multi-operation commits, updates recorded with a wrong old value, and commits containing operations that are invalid where they stand (the recorded finding of known_findings.json is tolerated there, everything else in that space is checked). From every state of a small two-replica space both replicas also sync at once under every interleaving of their server requests. Exhaustive within the stated alphabet and depth, which is what a universally quantified history property needs and no sampled test gives.",
          "alphabet: 1-2 tasks, properties p/q/f, values a/b/absent, timestamps {1,2}s, one 1 000 001-byte value; depth 7-10; harness server = docs/src/sync-protocol.md", "5/C01"),
  "C03": ("model_checking", "E-STATE (families)", "exhaustive enumeration of concurrent operation sequences x every sync order (and, for pairs, every interleaving of overlapping syncs) on real replicas; documented-winner oracle + order-independence differential",
@@ -18,7 +18,7 @@ CHECKS = {
  "C05": ("model_checking", "E-DIFF + E-FAULT", "exhaustive batch enumeration executed in lock step on the real Replica (in-memory and SQLite) against a reference operation model, batch-vs-single differential, and an injected error at every storage call index, including one batch of 1200 (thorough 5000) operations",
          "Every batch up to length 4-5 over creates/updates/removals/deletes/undo points on two tasks, valid or not, from 20 prior states (unsynced and synced), is committed through Replica::commit_operations and compared with the documented one-at-a-time semantics, with one-at-a-time commits on a clone, with the expected operation log and with base+pending; for every storage call of the commit an injected failure must leave the observable state unchanged.",
          "SQLite with shorter batches (2-3) because each case re-opens a database; string domain tiny", "5/C05"),
- "C07": ("model_checking", "E-STATE", "explicit-state search over commit/undo/stale-undo/sync histories on real replicas (both storages) with a harness-kept image of the task set at every undo point; one undo span of 1200 (thorough 6000) operations",
+ "C07": ("model_checking", "E-STATE", "explicit-state search over commit/undo/stale-undo/sync histories on real replicas (both storages) with a harness-kept image of the task set at every undo point; spans without changes (lone undo points); on every state repeated undo down to the last sync is executed; one undo span of 1200 (thorough 6000) operations",
          "Every history up to depth 6-9 of single-change commits (with/without undo point, made with the real TaskData API), undo, stale undo, undo after sync and sync, from empty and populated replicas; after each undo the exact earlier task set, the exact remaining unsynchronized list and the result flag are asserted, and the next sync's versions must equal the documented conversion of what remains.",
          "lone-UndoPoint edge not asserted; one replica; SQLite depth 3-6", "5/C07"),
  "C15": ("model_checking", "E-STATE", "explicit-state search over status/purge/rebuild/undo/remote-sync histories on real replicas (both storages) with the statement's working-set obligations as oracle after every rebuild and commit (statuses incl. recurring and an unknown one; one working set of 300 / 1500 tasks)",
@@ -36,19 +36,19 @@ CHECKS = {
  "C09": ("model_checking", "E-SCHED", "controlled scheduler over real CloudServer clients on one in-memory object store; every get/put/del/compare-and-swap and every list page is a scheduling point; stateless DFS with iterative preemption bounding and self-checked state-key pruning; replay-divergence check on every prefix; scenarios on a brand-new store include the constructors' salt requests",
          "2-4 clients run add/add-two/walk/add+snapshot programs against the real CloudServer; pairs are explored over all interleavings, triples within preemption bound 3 (thorough: all), the quadruple within bound 4; start layouts include leftover loser objects. The oracle uses only call results, the sequence of values 'latest' took and object names.",
          "in-memory Service obeys the Service trait contract; page sizes 1 and 2; cleanup disabled here (C10)", "5/C09"),
- "C10": ("model_checking", "E-SCHED + truncation", "controlled scheduler over cleanup vs add_version/add_snapshot/cleanup parties on every small object-store layout, preemption bound 2 (thorough 3), plus stopping the cleanup before any of its deletions",
+ "C10": ("model_checking", "E-SCHED + truncation", "controlled scheduler over cleanup vs add_version/add_snapshot/cleanup parties on every small object-store layout, preemption bound 2 (thorough 3), plus stopping the cleanup before any of its deletions and failing any page of its listings",
          "Every chain length 0..3(4) x snapshot subset x age pattern x orphan kind is the start layout; the cleanup is entered through the real add_version->maybe_cleanup path (draw forced by hook) or explicitly; all interleavings within the bound at request/list-page granularity; consequence-form oracle evaluated by a fresh client.",
          "deletion order of redundant snapshots is fixed to sorted order by a hook (hash-set order cannot be enumerated); version ids are counter-based under the hook", "5/C10"),
- "C04": ("fault_enumeration", "E-FAULT on E-STATE states", "call-indexed fault enumeration: one fault at every StorageTxn call index and every Server request of a real Replica::sync, from every distinct prior state of the C01 space, on in-memory and SQLite storage",
+ "C04": ("fault_enumeration", "E-FAULT on E-STATE states", "call-indexed fault enumeration: one fault at every StorageTxn call index and every Server request of a real Replica::sync, from every distinct prior state of the C01 space, on in-memory and SQLite storage; the same for a sync that changes the working set, then simply repeated; plus SIGKILL of a child process running the whole sync of a SQLite replica against the on-disk local server at its write syscalls (strace fault injection)",
          "For every reachable prior state (2-3 replicas, incl. multi-version syncs) and every replica with something to sync, the sync is run once per (interruption point, fault kind): storage error, process stop at a storage call, server error before effect, effect then lost reply, stop before/after the server's effect. Afterwards every replica must satisfy the replica invariant, quiescence must succeed and converge to a fault-free result.",
          "one fault per sync; process stop = future dropped and the storage re-read (SQLite: closed and re-opened); SQLite on a subset of states", "5/C04"),
- "C06": ("fault_enumeration", "E-FAULT + E-KILL", "abandonment at every storage call index of real replica actions on SqliteStorage, and SIGKILL of a child process at the entry of every write-class syscall (strace fault injection), with a before/after-state oracle on the directory re-opened read-only and then read-write",
+ "C06": ("fault_enumeration", "E-FAULT + E-KILL", "abandonment at every storage call index of real replica actions on SqliteStorage, and SIGKILL of a child process at the entry of every write-class syscall (strace fault injection), with a before/after-state oracle on the directory re-opened read-only and then read-write; also for an undo span of 1200 operations",
          "Commit, undo, both rebuild modes and sync on two prior SQLite replicas: (1) every storage call fails or is the point where the future is dropped and the handle closed; (2) a child performing the action is killed at every pwrite64/write/fsync/fdatasync/ftruncate/unlink (quick: every 5th point), including the checkpoint on close after the action was acknowledged. The re-opened store must be exactly before or exactly after, and after whenever the action had returned.",
          "process-kill semantics (page cache survives); SQLite's own recovery trusted; quick tier subsamples the kill points", "5/C06"),
  "C08": ("model_checking", "E-DIFF over backends", "exhaustive enumeration of Server call sequences up to a depth on fresh instances of every backend, in lock step with the reference chain model; 2-3 object-store handles connecting to a brand-new store at once and two whole syncs racing through the local / object-store / git backends under the controlled scheduler; replica-level histories through every backend",
          "All sequences of d calls (add_version with nil/latest/stale/unknown parents and empty/all-byte-values/300 KB payloads, get_child_version, add_snapshot, get_snapshot, re-open) from 1-2 handles on: local; git local-only; git with a shared bare remote and two clones; the real CloudServer over the in-memory object store; the real HTTP client against a harness server written from docs/http.md.",
          "depth 4 (object store), 3 (local), 2 (HTTP, git) in the quick tier because every git call costs several processes and process creation does not scale in this sandbox; AWS/GCP adapters and a real sync server are not reachable offline", "5/C08"),
- "C11": ("fault_enumeration", "E-FAULT", "fault at every internal step of add_version / add_snapshot of the local (failpoints), object-store (every request) and git (every git command and file write) backends x {error, effect-then-error, process stop} x {restart, keep handle}, followed by continued syncs of the interrupted and other replicas",
+ "C11": ("fault_enumeration", "E-FAULT", "fault at every internal step of add_version / add_snapshot of the local (failpoints), object-store (every request) and git (every git command and file write) backends x {error, effect-then-error, process stop} x {restart, keep handle} x {interrupted replica first, other replica first}, followed by continued syncs of the interrupted and other replicas; plus SIGKILL of a child process running a whole sync of a SQLite replica against the on-disk local server at each of its write syscalls (strace fault injection), three start situations",
          "After the single fault the interrupted replica syncs again, another replica commits and syncs, both sync again, a new replica syncs; all must succeed, all replicas must be identical and contain both changes, the chain served to a fresh handle must replay to that state, and a stale-parent probe must be rejected naming the latest.",
          "git with a shared remote: quick tier = the commit-to-push window and stops with staged files with a short continuation, thorough tier = every step; a 'stop' at a failpoint unwinds the stack (equivalent to what SQLite/git see after a process exit at that point)", "5/C11"),
  "C13": ("exploration", "exhaustive sweep", "exhaustive tamper/mismatch/truncation sweep of sealed values against an independent implementation of the documented scheme (ring primitives, RFC-vector self-check), plus inspection of what the three remote backends store, byte-flipping of stored versions and byte-flipping + every truncation of the stored snapshot in its real stored form",
@@ -100,7 +100,7 @@ m = {
   "engines": [
     {"name": "E-STATE", "path": "harness/src/explore/state.rs", "serves_properties": ["C01","C03","C05","C07","C12","C14","C15","C19"], "kind_free_text": "explicit-state depth-bounded DFS with iterative deepening over real objects, canonical-key dedup, rayon-parallel"},
     {"name": "E-FAULT", "path": "harness/src/world/proxy.rs", "serves_properties": ["C04","C05","C06","C11"], "kind_free_text": "call-indexed fault enumeration: recording run numbers every StorageTxn call / Server request / object-store request / named failpoint, then one run per (point, fault kind)"},
-    {"name": "E-KILL", "path": "harness/src/props/c06.rs", "serves_properties": ["C06"], "kind_free_text": "child process under strace -e inject=<syscall>:signal=KILL:when=<n>, one run per write-class syscall of an uninjected trace"},
+    {"name": "E-KILL", "path": "harness/src/props/c06.rs", "serves_properties": ["C04","C06","C11"], "kind_free_text": "child process under strace -e inject=<syscall>:signal=KILL:when=<n>, one run per write-class syscall of an uninjected trace"},
     {"name": "E-DIFF", "path": "harness/src/props/c16.rs", "serves_properties": ["C05","C08","C16"], "kind_free_text": "lock-step differential of two implementations / implementation vs reference model on every call of every enumerated script"},
     {"name": "E-SCHED", "path": "harness/src/explore/sched.rs", "serves_properties": ["C02","C09","C10","C17"], "kind_free_text": "controlled scheduler over real futures: one runnable task at a time, stateless DFS over choice prefixes with iterative deviation (preemption/fault) bounding"},
   ],
